@@ -4,7 +4,7 @@ from models import cfg as M
 from sim.core import FAILED
 
 ID = "C08"
-CASES = {"quick": 1200, "thorough": 20000}
+CASES = {"quick": 4000, "thorough": 20000}
 RULE = ("seeded grammars (<=4 variables, <=3 terminals, <=9 productions, bodies 0-4, profiles random / shared "
         "suffix / unit cycle / nullable chain / clean / A->A / empty language, start symbol possibly without "
         "productions) x value-hash schedule x PYTHONHASHSEED; contains / `in` / generate_epsilon compared with "
